@@ -9,6 +9,7 @@ import (
 
 	"github.com/lianxiangcloud/linkchain/config"
 	"github.com/lianxiangcloud/linkchain/libs/common"
+	"github.com/lianxiangcloud/linkchain/state"
 	"github.com/lianxiangcloud/linkchain/types"
 	"github.com/lianxiangcloud/linkchain/vm/evm"
 
@@ -32,6 +33,9 @@ type request struct {
 	gas   uint64
 	value *big.Int
 	token common.Address
+	// boundary scenario: the called contract's code is replaced by this one
+	// (set on the fresh StateDB before the call)
+	override []byte
 }
 
 type result struct {
@@ -51,6 +55,7 @@ type result struct {
 	site     string
 	msg      string
 	tr       *tracer
+	s        *state.StateDB // the state after the execution (for the diagnosis of root-only differences)
 }
 
 // sig is what two executions from equal states must agree on.
@@ -218,6 +223,10 @@ func (w *world) execute(rq request, traced bool, stepCap int) *result {
 		res.panicked, res.site, res.msg = true, "harness", "state.New: "+err.Error()
 		return res
 	}
+	if rq.override != nil && rq.entry != entryCreate {
+		s.SetCode(w.spec.role[rq.to], rq.override)
+	}
+	res.s = s
 	s.Prepare(txHash, blockHash, 0)
 	header := &types.Header{Height: 100, Time: 1600000000, Coinbase: w.spec.role[roleBenef], GasLimit: 1 << 40, ParentHash: blockHash}
 	ctx := evm.NewEVMContext(header, noChain{}, nil, config.EvmGasRate)
@@ -276,4 +285,57 @@ func (w *world) untouched() (*obs, common.Hash, error) {
 	o := w.observe(s)
 	o.set("refund-counter", "0")
 	return o, s.IntermediateRoot(false), nil
+}
+
+// rootOnlyDiff names what distinguishes the account records of the state after
+// a failed execution from those of the reference pre-state when every getter
+// agrees and only the root differs: "zero-token-entry" when the only
+// differences are token entries with balance 0 that the reference does not
+// have, "" otherwise.
+func (w *world) rootOnlyDiff(rq request, x *result) string {
+	if x.s == nil {
+		return ""
+	}
+	ref, err := w.open()
+	if err != nil {
+		return ""
+	}
+	if rq.override != nil && rq.entry != entryCreate {
+		ref.SetCode(w.spec.role[rq.to], rq.override)
+	}
+	ref.IntermediateRoot(false)
+	kind := ""
+	_, _, panicked := kernel.Try(func() {
+		d0, d1 := ref.RawDump(), x.s.RawDump()
+		if len(d0.Accounts) != len(d1.Accounts) {
+			return
+		}
+		zero := 0
+		for k, a1 := range d1.Accounts {
+			a0, ok := d0.Accounts[k]
+			if !ok || a0.Balance != a1.Balance || a0.Nonce != a1.Nonce || a0.Credits != a1.Credits || a0.Root != a1.Root || a0.CodeHash != a1.CodeHash {
+				return
+			}
+			for t, v := range a0.Tokens {
+				if u, ok := a1.Tokens[t]; !ok || u.Cmp(v) != 0 {
+					return
+				}
+			}
+			for t, v := range a1.Tokens {
+				if _, ok := a0.Tokens[t]; !ok {
+					if v.Sign() != 0 {
+						return
+					}
+					zero++
+				}
+			}
+		}
+		if zero > 0 {
+			kind = "zero-token-entry"
+		}
+	})
+	if panicked {
+		return ""
+	}
+	return kind
 }
